@@ -187,7 +187,13 @@ pub fn check_c11(history: &History) -> Check {
         let ack = if let Outcome::Write { ack, immediate, earlier_pending, stalled, .. } = &write.rec.outcome {
             ensure!(!*earlier_pending, "C11", "C11/ack-order", "thread {} op {}: a later queued acknowledgement of the same thread completed while this one was still pending", write.rec.thread, write.rec.index);
             if *stalled { return Err(Failure::new("STALL", "stall/ack", format!("thread {} op {} ({} of key {}): the acknowledgement never completed: the command was dropped or the worker is blocked", write.rec.thread, write.rec.index, write.kind, write.key))); }
-            if immediate.is_some() && !position.contains_key(ack) && !drained.contains(ack) { continue; }
+            if immediate.is_some() && !position.contains_key(ack) && !drained.contains(ack) {
+                // answered on the spot. Legitimate for puts of existing keys; an in-place put_or_update that carries an
+                // explicit weight (all generated ones do) must queue its weight update: it may not be answered without it
+                ensure!(!(write.kind == "upsert" && write.in_place == Some(true) && write.status == Some(St::Accepted)), "C11", "C11/never-executed",
+                    "thread {} op {}: put_or_update of key {} updated the entry in place and requested an explicit weight, was acknowledged {:?} at once, but no weight update was ever executed or drained by the worker: the queued part of the write was dropped", write.rec.thread, write.rec.index, write.key, write.status);
+                continue;
+            }
             *ack
         } else { continue };
         match position.get(&ack) {
